@@ -7,10 +7,12 @@ set -u
 cd $WT || exit 2
 git -C $WT diff -- verif scripts > /tmp/seed_$ID.diff
 if [ ! -s /tmp/seed_$ID.diff ]; then echo "NO SOURCE DIFF in $WT"; exit 2; fi
+if ! diff -q <(grep '^[+-][^+-]' /tmp/seed_$ID.diff) <(grep '^[+-][^+-]' $WT/_seed/patch.diff) > /dev/null; then echo "WARNING: worktree diff differs from _seed/patch.diff"; fi
 echo "== demo with change"; PYTHONPATH=$WT MPLBACKEND=Agg timeout 300 $PY _seed/demo.py > /tmp/seed_$ID.demo1 2>&1; RC1=$?; tail -3 /tmp/seed_$ID.demo1
-git -C $WT stash -q -- verif scripts
+# (git stash is shared between worktrees of one repository: reverse-apply the patch instead)
+git -C $WT apply -R /tmp/seed_$ID.diff
 echo "== demo without change"; PYTHONPATH=$WT MPLBACKEND=Agg timeout 300 $PY _seed/demo.py > /tmp/seed_$ID.demo0 2>&1; RC0=$?; tail -2 /tmp/seed_$ID.demo0
-git -C $WT stash pop -q
+git -C $WT apply /tmp/seed_$ID.diff
 echo "demo rc with=$RC1 without=$RC0"
 echo "== repo tests with change"; (cd $WT && PYTHONPATH=$WT MPLBACKEND=Agg timeout 900 $PY -m pytest -q -p no:cacheprovider -W ignore verif/tests 2>&1 | tail -1) | tee /tmp/seed_$ID.tests
 mkdir -p /verif/seeded/$ID
